@@ -156,6 +156,34 @@ def isRefNode : Expr → Bool
 def isOwnField : Expr → Bool
   | .field _ (.this _) _ => true
   | _ => false
+/-- the quantifier binding `x` at this point, if any (`binders` of `_collect_references`, innermost first) -/
+def lookupBinder (x : String) : List (String × Expr) → Option Expr
+  | [] => none
+  | (y, q) :: rest => if y == x then some q else lookupBinder x rest
+
+mutual
+/-- `_collect_references`: the reference nodes in pre-order, each with the quantifier that binds it when it is an
+    occurrence of a quantified variable (the implementation keys by `id(quantifier)`; two structurally equal
+    quantifiers give structurally equal occurrence lists, so keying by value decides the same intersections) -/
+def Expr.refOccs (scope : List (String × Expr)) : Expr → List (Option Expr × Expr)
+  | .lit .. | .this .. => []
+  | e@(.var _ x) => [(lookupBinder x scope, e)]
+  | .set _ vs => vs.refOccs scope
+  | .range _ lo hi _ _ => lo.refOccs scope ++ hi.refOccs scope
+  | q@(.quant _ _ x d b) => d.refOccs scope ++ b.refOccs ((x, q) :: scope)
+  | .un _ _ a => a.refOccs scope
+  | .bin _ _ a b => a.refOccs scope ++ b.refOccs scope
+  | .call _ _ as => as.refOccs scope
+  | e@(.field _ m _) => (none, e) :: m.refOccs scope
+  | e@(.index _ a i) => (none, e) :: (a.refOccs scope ++ i.refOccs scope)
+def ExprList.refOccs (scope : List (String × Expr)) : ExprList → List (Option Expr × Expr)
+  | .nil => []
+  | .cons e es => e.refOccs scope ++ es.refOccs scope
+end
+
+/-- two occurrences belong to the same group of the reference table -/
+def sameRef (a b : Option Expr × Expr) : Bool := a.1 == b.1 && a.2.print == b.2.print
+
 def Expr.refKeys (e : Expr) : List String := ((e.preorder.filter isRefNode).map Expr.print).eraseDups
 def Expr.refGroup (e : Expr) (k : String) : List Expr := (e.preorder.filter isRefNode).filter (fun r => r.print == k)
 /-- the check passes iff the first member of some group is an own-field access -/
